@@ -3,7 +3,7 @@
    reachability in proofs/Reach.v), the declarative side in spec/RoadSpec.v. *)
 From Coq Require Import ZArith List Bool.
 From TV Require gen.Consts proofs.TieRoad.
-From TV Require Import model.Tak model.Road spec.RoadSpec proofs.RoadProofs.
+From TV Require Import model.Tak model.Road model.RoadPy spec.RoadSpec proofs.RoadProofs proofs.RoadPyProofs.
 Import ListNotations.
 Open Scope Z_scope.
 
@@ -32,6 +32,31 @@ Proof. exact has_road_none_winner. Qed.
 (* tie (G): Kind.is_road of the tree under test is the model's kind_is_road (walls are not road pieces) *)
 Theorem C02_tie_kind_is_road : Consts.kind_is_road = map kind_is_road [Flat; Standing; Capstone].
 Proof. exact TieRoad.tie_road_kinds. Qed.
+
+(* ---- the Python work-list itself (model/RoadPy.v mirrors Position._walk / has_road statement by
+   statement; fuel = loop iterations, walk_fuel p = 5*size^2 + size + 1) ---- *)
+(* _walk from ANY seed list: 5*size^2 + |seeds| + 1 iterations suffice (never OutOfFuel) and the answer is
+   True exactly when a chain of road squares of the colour joins a seed to the far edge *)
+Theorem C02_walk_py_reach : forall p c horiz seeds0 fuel, 0 <= size p ->
+  (5 * Z.to_nat (size p * size p) + length seeds0 + 1 <= fuel)%nat ->
+  exists b, walk_py fuel p seeds0 c horiz = Done b /\ (b = true <-> reach_target p c horiz seeds0).
+Proof. exact walk_py_reach. Qed.
+(* on the code's own seed lists the work-list returns what the closure model returns *)
+Theorem C02_walk_py_eq : forall p c horiz fuel, wf_pos p -> (walk_fuel p <= fuel)%nat ->
+  walk_py fuel p (seeds (size p) horiz) c horiz = Done (walk p c horiz).
+Proof. exact walk_py_eq. Qed.
+(* ... hence it finds a road exactly when the declarative path exists *)
+Theorem C02_walk_py_is_path : forall p c horiz fuel, wf_pos p -> (walk_fuel p <= fuel)%nat ->
+  (walk_py fuel p (seeds (size p) horiz) c horiz = Done true <-> spans p c horiz).
+Proof. exact walk_py_spec. Qed.
+(* has_road as written in the code (short-circuit `or`, both/one/none) = Road.has_road *)
+Theorem C02_has_road_py_eq : forall p fuel, wf_pos p -> (walk_fuel p <= fuel)%nat ->
+  has_road_py fuel p = Done (has_road p).
+Proof. exact has_road_py_eq. Qed.
+(* ... and answers the declarative road question *)
+Theorem C02_has_road_py : forall p fuel o, wf_pos p -> (walk_fuel p <= fuel)%nat ->
+  (road_verdict p o <-> has_road_py fuel p = Done o).
+Proof. exact has_road_py_spec. Qed.
 
 (* ---- about the function regenerated from the source (gen/GameGen.v; has_road/_walk enter as Road.has_road) ---- *)
 From TV Require Import model.PySem proofs.GameGenEq proofs.GameGenCor.
